@@ -788,6 +788,14 @@ def leftover_runs(rnd, consts, cap):
             tb = {"op": "tcp", "t": b, "sport": q, "direct": False}
             mid = [c4a, c4b, ta, tb] if order == "abab" else [c4a, c4b, tb, ta]
             out.append(("%s-%s" % (nm, order), pre(d1, d2, d3) + mid + rel(p) + rel(q), 0))
+    # a thread completes a diverted connect while it runs as root, changes its credentials (same pid/tid), and then
+    # connects straight to the agent's listener (no policy entry matches 127.0.0.1:<proxy port>, connect4 stages nothing):
+    # nothing may be published for that connection -- in particular not what was staged for the earlier one
+    drop = dict(user_c, uid=1000, gid=1000)
+    for nm, first, later in (("root-then-dropped-direct", user_c, drop), ("same-creds-direct", user, user)):
+        p, q = next(ports), next(ports)
+        out.append(("staged-" + nm, pre(d1, d2, d3) + conn(first, rnd.choice([d1, d3]), p) + rel(p) +
+                    direct(later, proxy, q) + end(q), 0))
     p = next(ports)
     out.append(("reuse-chain",                           # three generations under one port, the last one consumed
                 pre(d1, d2, d3) + conn(root, d1, p) + end(p) + conn(user, d2, p) + end(p) + conn(other, d3, p) + rel(p) +
